@@ -25,10 +25,22 @@ Scn == <<
   \* 3: paloma light nodes, token factory, valset / treasury records, user contracts
   << <<"lnregister", "tfcreate", "status">>, <<"lnauth", "tfmint", "statusbad">>, <<"extinfo", "keepalive">>, <<"feediff">>,
      <<"uploaduser", "createjob">>, <<"deployuser", "execjob">>, <<"sign">>, <<"estimate">>, <<"fee", "sign">>, <<"relayok">>, <<"attesterr">> >>,
-  \* 4: starts at 296: crosses 300 (external balance requests, pruning) and 303 (chain-info jail sweep) with evidence in flight
-  << <<"execjob", "send">>, <<"sign">>, <<"estimate">>, <<"sign">>, <<"balances">>, <<"refblock", "relayerr">>, <<"attesterr">>, <<"balances", "statusbad">>, <<"sign">> >>
+  \* 4: starts at 296: crosses 300 (external balance requests, pruning) and 303 (chain-info jail sweep) with CONTENTIOUS
+  \*    evidence in flight: validators 0 and 1 against validator 2 (75 % of the power together, no proof with 2/3) on the
+  \*    reference block request, the balance requests, a transaction proof and an error report
+  << <<"execjob", "send">>, <<"sign">>, <<"estimate">>, <<"sign", "refsplit">>, <<"balsplit">>, <<"relayok", "statusbad">>, <<"txsplit">>,
+     <<"execjob">>, <<"sign">>, <<"estimate">>, <<"sign">>, <<"relayerr">>, <<"attestsplit3">>, <<"status">> >>
 >>
-Start == <<280, 290, 280, 296>>
+\* 5: every sender-controlled field of the status update (the message whose handler looks at the process environment) with every
+\*    hostile class: one block per parameter
+StatusIdx == SelectSeq([i \in 1..Len(Cat) |-> i], LAMBDA i : Cat[i][1] = "AddStatusUpdate")
+CSeq == <<"negative", "zero", "one", "huge63", "huge64", "huge255", "empty", "overlong", "malformed">>
+HostileOf(i) == LET cl == SelectSeq(CSeq, LAMBDA c : c \in ClassesOf(Cat[i][3])) IN [k \in DOMAIN cl |-> <<Cat[i][1], Cat[i][2], cl[k]>>]
+NScn == Len(Scn) + 1
+ScnLen(s) == IF s <= Len(Scn) THEN Len(Scn[s]) ELSE Len(StatusIdx)
+ScnTxs(s, k) == IF s <= Len(Scn) THEN Scn[s][k] ELSE <<"status">>
+ScnHostile(s, k) == IF s <= Len(Scn) THEN <<>> ELSE HostileOf(StatusIdx[k])
+Start == <<280, 290, 280, 296, 280>>
 
 StepOf(l) == CASE l.act = "Restart"  -> [act |-> "Restart", args |-> [n |-> 0]]
                [] l.act = "Query"    -> [act |-> "Query", args |-> [k |-> l.arg]]
@@ -45,19 +57,19 @@ GInit == /\ \E s \in Scenarios :
 GPerturb == \/ Restart \/ (\E k \in QueryKinds : Query(k))
             \/ (\E x \in EnvVars \ env : SetEnv(x)) \/ (\E x \in env : UnsetEnv(x))
 
-GBlock == /\ pos < Len(Scn[scn])
-          /\ Block(TplSeq(Scn[scn][pos + 1]))
-          /\ pos' = pos + 1 /\ hist' = Append(hist, [act |-> "Block", args |-> [txs |-> Scn[scn][pos + 1]]])
+GBlock == /\ pos < ScnLen(scn)
+          /\ Block(TplSeq(ScnTxs(scn, pos + 1)) \o ScnHostile(scn, pos + 1))
+          /\ pos' = pos + 1 /\ hist' = Append(hist, [act |-> "Block", args |-> [txs |-> ScnTxs(scn, pos + 1), hostile |-> ScnHostile(scn, pos + 1)]])
           /\ UNCHANGED <<scn, npert, turn>>
 GPert == /\ npert < MaxPert /\ GPerturb
          /\ npert' = npert + 1 /\ hist' = Append(hist, StepOf(last'))
          /\ UNCHANGED <<scn, pos, turn>>
-GNextC == (IF pos = Len(Scn[scn]) THEN PrintT(<<"HIST", ToJson(hist)>>) ELSE TRUE) /\ (GBlock \/ GPert)
+GNextC == (IF pos = ScnLen(scn) THEN PrintT(<<"HIST", ToJson(hist)>>) ELSE TRUE) /\ (GBlock \/ GPert)
 
 \* simulate mode
 GBlockS == /\ turn = "blk"
            /\ \E a, b \in Templates : /\ Block(TplSeq(<<a, b>>))
-                                      /\ hist' = Append(hist, [act |-> "Block", args |-> [txs |-> <<a, b>>]])
+                                      /\ hist' = Append(hist, [act |-> "Block", args |-> [txs |-> <<a, b>>, hostile |-> <<>>]])
            /\ turn' \in {"blk", "pert"} /\ pos' = pos + 1 /\ UNCHANGED <<scn, npert>>
 GPertS == /\ turn = "pert" /\ GPerturb /\ turn' = "blk"
           /\ npert' = npert + 1 /\ hist' = Append(hist, StepOf(last')) /\ UNCHANGED <<scn, pos>>
